@@ -216,7 +216,9 @@ Fixpoint resolve (e : env) (v : value) {struct v} : res value :=
                end) l ;;
       Ok (VList l')
   | VDict d =>
-      let generic :=
+      (* a thunk: under call-by-value evaluation (vm_compute, the extracted runner) a plain [let] would resolve the members
+         of EVERY function object a second time -- harmless for the result, exponential in the nesting depth *)
+      let generic := fun _ : unit =>
         d' <- (fix go (d : list (str * value)) : res (list (str * value)) :=
                  match d with
                  | [] => Ok []
@@ -313,8 +315,8 @@ Fixpoint resolve (e : env) (v : value) {struct v} : res value :=
             | VList _ => Err EValue
             | _ => Err EUndefined
             end
-          else generic
-      | _ => generic
+          else generic tt
+      | _ => generic tt
       end
   | VNull => Ok VNull
   | VBool b => Ok (VStr (bool_text b))
